@@ -1,6 +1,6 @@
 (* Proofs about Model/Spec.v (property C13). *)
 From SV Require Import Base.Prelude Model.Spec.
-From Coq Require Import Ascii String.
+From Coq Require Import Ascii String Permutation.
 Open Scope nat_scope.
 
 (* ---------------- tables ---------------- *)
@@ -1238,4 +1238,486 @@ Proof.
   unfold gate. destruct (metrics_and_policy c) as [[m|]|]; destruct (is_idempotent c); split;
     intros H; try discriminate; try reflexivity; auto.
   destruct H as [H|[H|H]]; discriminate.
+Qed.
+
+(* ---------------- Layer B in virtual time: the guided search decides membership ---------------- *)
+
+Lemma baccept_In c interval tg o : baccept c interval tg o = true <-> In o (btimed_runs c interval tg).
+Proof.
+  unfold baccept. rewrite existsb_exists. split.
+  - intros (m & Hm & He). destruct (bobs_eq_dec o m) as [->|]; [exact Hm|discriminate].
+  - intros H. exists o. split; [exact H|]. destruct (bobs_eq_dec o o); [reflexivity|congruence].
+Qed.
+
+Lemma is_prefix_ev_spec a b : is_prefix_ev a b = true <-> exists ext, b = a ++ ext.
+Proof.
+  revert b; induction a as [|x a IH]; intros b; cbn [is_prefix_ev].
+  - split; [intros _; exists b; reflexivity|reflexivity].
+  - destruct b as [|y b].
+    + split; [discriminate|intros [ext H]; discriminate].
+    + rewrite andb_true_iff, IH. split.
+      * intros [Hxy [ext ->]]. destruct (event_eq_dec x y) as [->|]; [|discriminate]. exists ext. reflexivity.
+      * intros [ext H]. cbn [app] in H. inversion H; subst. split; [|exists ext; reflexivity].
+        destruct (event_eq_dec x x); [reflexivity|congruence].
+Qed.
+
+Lemma btstep_trace interval tg t l tn t' :
+  btstep interval tg t l tn = Some t' -> exists ext, btrace t' = ext ++ btrace t.
+Proof.
+  unfold btstep. destruct l as [|f].
+  - destruct (bstep (bb t) BTimer); [|discriminate]. intros H; inversion H; subst. exists []. reflexivity.
+  - destruct (bstep (bb t) (BDraw f)) as [b1|]; [|discriminate].
+    destruct (plan (bb t)) as [|x rest].
+    + destruct (bstep b1 _) as [b2|]; [|discriminate]. intros H; inversion H; subst. cbn [btrace]. eauto.
+    + intros H; inversion H; subst. cbn [btrace].
+      exists (EvBegin x tn :: map (fun c => EvEnd c tn) (latest_target f (draws (bb t)))). reflexivity.
+Qed.
+
+Lemma bexplore_prefix fuel interval tg t o :
+  In o (bexplore fuel interval tg t) -> exists ext, bo_events o = rev (btrace t) ++ ext.
+Proof.
+  revert t; induction fuel as [|fuel IH]; intros t Hin; cbn [bexplore] in Hin.
+  - destruct (returned (core (bb t))); [|destruct Hin]. destruct Hin as [<-|[]]. exists []. cbn. symmetry. apply app_nil_r.
+  - destruct (returned (core (bb t))).
+    + destruct Hin as [<-|[]]. exists []. cbn. symmetry. apply app_nil_r.
+    + destruct (list_min (bevent_times t)) as [tn|]; [|destruct Hin].
+      apply in_flat_map in Hin. destruct Hin as (l & _ & Hin).
+      destruct (btstep interval tg t l tn) as [t'|] eqn:Hs; [|destruct Hin].
+      destruct (btstep_trace _ _ _ _ _ _ Hs) as [e He]. destruct (IH _ Hin) as [ext Hext].
+      exists (rev e ++ ext). rewrite Hext, He, rev_app_distr, <- app_assoc. reflexivity.
+Qed.
+
+Lemma bsearch_sound fuel interval tg t o :
+  bsearch fuel interval tg t o = true -> In o (bexplore fuel interval tg t).
+Proof.
+  revert t; induction fuel as [|fuel IH]; intros t H; cbn [bsearch bexplore] in *.
+  - destruct (returned (core (bb t))); [|discriminate].
+    destruct (bobs_eq_dec o _) as [->|]; [left; reflexivity|discriminate].
+  - destruct (returned (core (bb t))).
+    + destruct (bobs_eq_dec o _) as [->|]; [left; reflexivity|discriminate].
+    + destruct (list_min (bevent_times t)) as [tn|]; [|discriminate].
+      apply existsb_exists in H. destruct H as (l & Hl & H).
+      apply in_flat_map. exists l. split; [exact Hl|].
+      destruct (btstep interval tg t l tn) as [t'|]; [|discriminate].
+      apply andb_true_iff in H. apply IH. tauto.
+Qed.
+
+Lemma bsearch_complete fuel interval tg t o :
+  In o (bexplore fuel interval tg t) -> bsearch fuel interval tg t o = true.
+Proof.
+  revert t; induction fuel as [|fuel IH]; intros t Hin; cbn [bsearch bexplore] in *.
+  - destruct (returned (core (bb t))); [|destruct Hin]. destruct Hin as [<-|[]].
+    destruct (bobs_eq_dec _ _); [reflexivity|congruence].
+  - destruct (returned (core (bb t))).
+    + destruct Hin as [<-|[]]. destruct (bobs_eq_dec _ _); [reflexivity|congruence].
+    + destruct (list_min (bevent_times t)) as [tn|]; [|destruct Hin].
+      apply in_flat_map in Hin. destruct Hin as (l & Hl & Hin).
+      apply existsb_exists. exists l. split; [exact Hl|].
+      destruct (btstep interval tg t l tn) as [t'|] eqn:Hs; [|destruct Hin].
+      apply andb_true_iff. split; [|apply IH; exact Hin].
+      apply is_prefix_ev_spec. eapply bexplore_prefix. exact Hin.
+Qed.
+
+Lemma baccept_guided_eq c interval tg o : baccept_guided c interval tg o = baccept c interval tg o.
+Proof.
+  unfold baccept_guided. destruct (baccept c interval tg o) eqn:Ha.
+  - apply bsearch_complete. apply baccept_In. exact Ha.
+  - destruct (bsearch _ _ _ _ o) eqn:Hs; [|reflexivity].
+    apply bsearch_sound in Hs. apply baccept_In in Hs. congruence.
+Qed.
+
+(* ---------------- every explored run is a Layer-B schedule; its begins are the draws ---------- *)
+
+Lemma begins_app a b : begins (a ++ b) = begins a ++ begins b.
+Proof.
+  induction a as [|[t x|t x] a IH]; cbn [app begins]; [reflexivity|rewrite IH; reflexivity|exact IH].
+Qed.
+
+Lemma begins_ends tn l : begins (rev (map (fun c => EvEnd c tn) l)) = [].
+Proof.
+  induction l as [|c l IH]; [reflexivity|]. cbn [map rev]. rewrite begins_app, IH. reflexivity.
+Qed.
+
+Record BTInv (c : config) (tg : list (N * N)) (t : btstate) : Prop := mkBTInv {
+  bt_run : brun (binit c (map fst tg)) (rev (bhist t)) = Some (bb t);
+  bt_begins : begins (rev (btrace t)) = rev (drawn (draws (bb t)))
+}.
+
+Lemma btinv_init c interval tg : BTInv c tg (btinit c interval tg).
+Proof.
+  constructor; cbn; [reflexivity|]. unfold binit. destruct (gate c); reflexivity.
+Qed.
+
+Lemma bstep_draw_effect b f b1 :
+  bstep b (BDraw f) = Some b1 ->
+  match plan b with
+  | x :: rest => draws b1 = (f, Some x) :: draws b /\ plan b1 = rest
+  | [] => draws b1 = (f, None) :: draws b /\ plan b1 = []
+  end.
+Proof.
+  cbn [bstep]. destruct (returned (core b)); [discriminate|].
+  destruct (mem f (running (core b)) && negb (saw_end f (draws b))); [|discriminate].
+  destruct (plan b); intros H; inversion H; subst; cbn; auto.
+Qed.
+
+Lemma bstep_complete_draws b f o b2 : bstep b (BComplete f o) = Some b2 -> draws b2 = draws b.
+Proof.
+  cbn [bstep]. match goal with |- (if ?c then _ else _) = _ -> _ => destruct c; [|discriminate] end.
+  destruct (if speculative b then _ else _); intros H; inversion H; subst. reflexivity.
+Qed.
+
+Lemma bstep_timer_draws b b1 : bstep b BTimer = Some b1 -> draws b1 = draws b.
+Proof.
+  cbn [bstep]. destruct (speculative b); [|discriminate].
+  destruct (step (core b) Timer); intros H; inversion H; subst. reflexivity.
+Qed.
+
+Lemma btinv_step c interval tg t l tn t' :
+  BTInv c tg t -> btstep interval tg t l tn = Some t' -> BTInv c tg t'.
+Proof.
+  intros [Hrun Hbeg] H. unfold btstep in H. destruct l as [|f].
+  - destruct (bstep (bb t) BTimer) as [b1|] eqn:Hs; [|discriminate]. inversion H; subst t'; clear H.
+    constructor; cbn [bb bhist btrace].
+    + cbn [rev]. rewrite brun_snoc, Hrun. exact Hs.
+    + rewrite (bstep_timer_draws _ _ Hs). exact Hbeg.
+  - destruct (bstep (bb t) (BDraw f)) as [b1|] eqn:Hs; [|discriminate].
+    pose proof (bstep_draw_effect _ _ _ Hs) as He.
+    destruct (plan (bb t)) as [|x rest].
+    + destruct (bstep b1 _) as [b2|] eqn:Hs2; [|discriminate]. inversion H; subst t'; clear H.
+      constructor; cbn [bb bhist btrace].
+      * cbn [rev]. rewrite brun_snoc, brun_snoc, Hrun, Hs. exact Hs2.
+      * rewrite (bstep_complete_draws _ _ _ _ Hs2). destruct He as [-> _].
+        rewrite rev_app_distr, begins_app, begins_ends, Hbeg. cbn [drawn flat_map snd app].
+        apply app_nil_r.
+    + inversion H; subst t'; clear H. constructor; cbn [bb bhist btrace].
+      * cbn [rev]. rewrite brun_snoc, Hrun. exact Hs.
+      * destruct He as [-> _]. cbn [rev]. rewrite begins_app, rev_app_distr, begins_app, begins_ends, Hbeg.
+        cbn [drawn flat_map snd app begins rev]. rewrite app_nil_r. reflexivity.
+Qed.
+
+Lemma bexplore_final c interval tg fuel t o :
+  BTInv c tg t -> In o (bexplore fuel interval tg t) ->
+  exists t' r, BTInv c tg t' /\ returned (core (bb t')) = Some r /\
+               o = mkBObs (rev (btrace t')) r (bnow t').
+Proof.
+  revert t; induction fuel as [|fuel IH]; intros t T Hin; cbn [bexplore] in Hin.
+  - destruct (returned (core (bb t))) as [r|] eqn:Hret; [|destruct Hin].
+    destruct Hin as [<-|[]]. exists t, r. auto.
+  - destruct (returned (core (bb t))) as [r|] eqn:Hret.
+    + destruct Hin as [<-|[]]. exists t, r. auto.
+    + destruct (list_min (bevent_times t)) as [tn|]; [|destruct Hin].
+      apply in_flat_map in Hin. destruct Hin as (l & _ & Hin).
+      destruct (btstep interval tg t l tn) as [t1|] eqn:Hs; [|destruct Hin].
+      apply (IH t1); [eapply btinv_step; eassumption|exact Hin].
+Qed.
+
+Lemma is_prefix_spec a b : is_prefix a b = true <-> exists ext, b = a ++ ext.
+Proof.
+  revert b; induction a as [|x a IH]; intros b; cbn [is_prefix].
+  - split; [intros _; exists b; reflexivity|reflexivity].
+  - destruct b as [|y b].
+    + split; [discriminate|intros [ext H]; discriminate].
+    + rewrite andb_true_iff, IH, N.eqb_eq. split.
+      * intros [-> [ext ->]]. exists ext. reflexivity.
+      * intros [ext H]. cbn [app] in H. inversion H; subst. split; [reflexivity|exists ext; reflexivity].
+Qed.
+
+(* every accepted trace is the trace of a schedule of Layer B (so the gate / shared-plan theorems
+   apply to it), and its attempts begin on the plan's targets, in plan order, none twice *)
+Lemma probe_accept_schedule c interval tg o :
+  baccept_guided c interval tg o = true ->
+  (exists bls b, brun (binit c (map fst tg)) bls = Some b /\ returned (core b) = Some (bo_res o) /\
+                 begins (bo_events o) = rev (drawn (draws b))) /\
+  is_prefix (begins (bo_events o)) (map fst tg) = true.
+Proof.
+  intros H. rewrite baccept_guided_eq in H. apply baccept_In in H.
+  destruct (bexplore_final c _ _ _ _ _ (btinv_init c interval tg) H) as (t' & r & [Hrun Hbeg] & Hret & ->).
+  cbn [bo_events bo_res bo_end]. split.
+  - exists (rev (bhist t')), (bb t'). auto.
+  - apply is_prefix_spec. exists (plan (bb t')). rewrite Hbeg. apply (plan_conservation _ _ _ _ Hrun).
+Qed.
+
+
+(* ---------------- probe plans: accepted traces never have too many attempts open -------------- *)
+
+Fixpoint run_open (op : list N) (evs : list event) : option (list N) :=
+  match evs with
+  | [] => Some op
+  | EvBegin t _ :: r => run_open (t :: op) r
+  | EvEnd t _ :: r => match remove1 t op with Some o' => run_open o' r | None => None end
+  end.
+
+Lemma open_ok_app bound a : forall op op' b,
+  open_ok bound op a = true -> run_open op a = Some op' -> open_ok bound op' b = true ->
+  open_ok bound op (a ++ b) = true /\ run_open op (a ++ b) = run_open op' b.
+Proof.
+  induction a as [|[t x|t x] a IH]; intros op op' b Ha Hr Hb; cbn [app open_ok run_open] in *.
+  - inversion Hr; subst. auto.
+  - apply andb_true_iff in Ha. destruct Ha as [H1 H2].
+    destruct (IH _ _ b H2 Hr Hb) as [I1 I2]. rewrite H1, I1. auto.
+  - destruct (remove1 t op) as [o'|]; [|discriminate]. apply (IH _ _ b Ha Hr Hb).
+Qed.
+
+Lemma remove1_In c op : In c op -> exists op1, remove1 c op = Some op1 /\ Permutation op (c :: op1).
+Proof.
+  induction op as [|y op IH]; intros Hin; [destruct Hin|]. cbn [remove1].
+  destruct (N.eqb_spec c y) as [->|Hne].
+  - exists op. split; [reflexivity|apply Permutation_refl].
+  - destruct Hin as [->|Hin]; [congruence|]. destruct (IH Hin) as (op1 & -> & Hp).
+    exists (y :: op1). split; [reflexivity|].
+    eapply Permutation_trans; [apply perm_skip; exact Hp|apply perm_swap].
+Qed.
+
+Lemma flat_map_ext_in {A B} (g g' : A -> list B) l :
+  (forall a, In a l -> g a = g' a) -> flat_map g l = flat_map g' l.
+Proof.
+  induction l as [|a l IH]; intros H; [reflexivity|]. cbn [flat_map].
+  rewrite (H a (or_introl eq_refl)), IH; [reflexivity|]. intros b Hb. apply H. right; exact Hb.
+Qed.
+
+Lemma NoDup_split (f : nat) l : NoDup l -> In f l ->
+  exists r1 r2, l = r1 ++ f :: r2 /\ ~ In f r1 /\ ~ In f r2.
+Proof.
+  intros Hnd Hin. destruct (in_split _ _ Hin) as (r1 & r2 & ->). exists r1, r2. split; [reflexivity|].
+  apply NoDup_remove_2 in Hnd. split; intros H; apply Hnd; apply in_or_app; auto.
+Qed.
+
+Lemma remove_split f r1 r2 : ~ In f r1 -> ~ In f r2 -> remove f (r1 ++ f :: r2) = r1 ++ r2.
+Proof.
+  intros H1 H2. unfold remove. rewrite filter_app. cbn [filter]. rewrite Nat.eqb_refl. cbn [negb].
+  assert (Hid : forall m, ~ In f m -> filter (fun g => negb (f =? g)) m = m).
+  { induction m as [|y m IHm]; intros Hy; [reflexivity|]. cbn [filter].
+    destruct (Nat.eqb_spec f y) as [->|Hxy]; [exfalso; apply Hy; left; reflexivity|].
+    cbn [negb]. f_equal. apply IHm. intros H; apply Hy; right; exact H. }
+  rewrite !Hid by assumption. reflexivity.
+Qed.
+
+Lemma latest_target_cons_other g f x ds : g <> f -> latest_target g ((f, x) :: ds) = latest_target g ds.
+Proof.
+  intros Hne. unfold latest_target. cbn [find fst].
+  destruct (Nat.eqb_spec f g); [congruence|reflexivity].
+Qed.
+Lemma latest_target_cons_some f x ds : latest_target f ((f, Some x) :: ds) = [x].
+Proof. unfold latest_target. cbn [find fst]. rewrite Nat.eqb_refl. reflexivity. Qed.
+Lemma latest_target_cons_none f ds : latest_target f ((f, None) :: ds) = [].
+Proof. unfold latest_target. cbn [find fst]. rewrite Nat.eqb_refl. reflexivity. Qed.
+
+Lemma latest_target_fresh f ds : (forall d, In d ds -> fst d <> f) -> latest_target f ds = [].
+Proof.
+  intros H. unfold latest_target. destruct (find (fun d => fst d =? f) ds) as [[g x]|] eqn:Hf; [|reflexivity].
+  apply find_some in Hf. destruct Hf as [Hin He]. cbn in He. apply Nat.eqb_eq in He.
+  exfalso. apply (H _ Hin). exact He.
+Qed.
+
+(* effects of the Layer-B steps on the select loop *)
+Lemma bstep_draw_core b f b1 : bstep b (BDraw f) = Some b1 ->
+  core b1 = core b /\ speculative b1 = speculative b /\ In f (running (core b)).
+Proof.
+  cbn [bstep]. destruct (returned (core b)); [discriminate|].
+  destruct (mem f (running (core b)) && negb (saw_end f (draws b))) eqn:Hc; [|discriminate].
+  apply andb_true_iff in Hc. destruct Hc as [Hm _]. apply mem_In in Hm.
+  destruct (plan b); intros H; inversion H; subst; cbn; auto.
+Qed.
+
+Lemma step_complete_running s f o s' : step s (Complete f o) = Some s' -> running s' = remove f (running s).
+Proof.
+  unfold step. destruct (returned s); [discriminate|]. unfold on_complete.
+  destruct (mem f (running s)); [|discriminate].
+  assert (Hfc : forall m, running (finish_check m) = running m).
+  { intros m. unfold finish_check. destruct (running m) eqn:Hr; [destruct (retries m)|]; cbn; auto. }
+  destruct o as [r|]; [destruct (can_be_ignored r)|]; intros H; inversion H; subst; rewrite ?Hfc; reflexivity.
+Qed.
+
+Lemma bstep_complete_running b f o b2 : bstep b (BComplete f o) = Some b2 ->
+  running (core b2) = remove f (running (core b)).
+Proof.
+  cbn [bstep]. match goal with |- (if ?c then _ else _) = _ -> _ => destruct c; [|discriminate] end.
+  destruct (speculative b).
+  - destruct (step (core b) (Complete f o)) as [s'|] eqn:Hs; [|discriminate].
+    intros H; inversion H; subst. cbn [core]. eapply step_complete_running. exact Hs.
+  - unfold single_complete. destruct (returned (core b)); [discriminate|].
+    destruct (mem f (running (core b))); [|discriminate]. intros H; inversion H; subst. reflexivity.
+Qed.
+
+Lemma bstep_timer_running b b1 : bstep b BTimer = Some b1 ->
+  running (core b1) = running (core b) \/ running (core b1) = running (core b) ++ [started (core b)].
+Proof.
+  cbn [bstep]. destruct (speculative b); [|discriminate].
+  destruct (step (core b) Timer) as [s'|] eqn:Hs; [|discriminate]. intros H; inversion H; subst. cbn [core].
+  unfold step in Hs. destruct (returned (core b)); [discriminate|]. unfold on_timer in Hs.
+  destruct (sleep (core b)); [|discriminate].
+  destruct (retries (core b)); inversion Hs; subst; cbn; auto.
+Qed.
+
+Definition bound_of (c : config) : nat := match gate c with Some max => 1 + max | None => 1 end.
+
+Lemma in_flight_bound c pl bls b : brun (binit c pl) bls = Some b -> List.length (in_flight b) <= bound_of c.
+Proof.
+  intros H. unfold bound_of. destruct (gate c) as [max|] eqn:Hg.
+  - apply (gate_open _ _ _ _ _ Hg H).
+  - apply (gate_closed _ _ _ _ Hg H).
+Qed.
+
+Lemma running_nodup c pl bls b : brun (binit c pl) bls = Some b -> NoDup (running (core b)).
+Proof.
+  intros H. pose proof (binv_reachable _ _ _ _ H) as B. destruct (gate c) as [max|] eqn:Hg.
+  - apply (inv_nodup _ _ _ (inv_reachable _ _ _ (b_spec _ _ _ _ B _ Hg))).
+  - destruct (b_single _ _ _ _ B Hg) as [[Hc _]|(o & _ & Hc)]; rewrite Hc; cbn; repeat constructor. intros [].
+Qed.
+
+Record BTInv2 (c : config) (tg : list (N * N)) (t : btstate) : Prop := mkBTInv2 {
+  bt2_base : BTInv c tg t;
+  bt2_ok : open_ok (bound_of c) [] (rev (btrace t)) = true;
+  bt2_open : exists op, run_open [] (rev (btrace t)) = Some op /\ Permutation op (in_flight (bb t))
+}.
+
+Lemma btinv2_init c interval tg : BTInv2 c tg (btinit c interval tg).
+Proof.
+  constructor; [apply btinv_init|reflexivity|]. exists []. split; [reflexivity|].
+  cbn. unfold in_flight, binit. destruct (gate c); cbn; apply Permutation_refl.
+Qed.
+
+(* closing the attempt (if any) fiber f is working on *)
+Lemma close_current c (t : btstate) f tn op r1 r2 :
+  open_ok (bound_of c) [] (rev (btrace t)) = true ->
+  run_open [] (rev (btrace t)) = Some op ->
+  running (core (bb t)) = r1 ++ f :: r2 ->
+  Permutation op (flat_map (fun g => latest_target g (draws (bb t))) r1
+                  ++ latest_target f (draws (bb t))
+                  ++ flat_map (fun g => latest_target g (draws (bb t))) r2) ->
+  let ends := map (fun x => EvEnd x tn) (latest_target f (draws (bb t))) in
+  exists op1,
+    open_ok (bound_of c) [] (rev (ends ++ btrace t)) = true /\
+    run_open [] (rev (ends ++ btrace t)) = Some op1 /\
+    Permutation op1 (flat_map (fun g => latest_target g (draws (bb t))) r1
+                     ++ flat_map (fun g => latest_target g (draws (bb t))) r2).
+Proof.
+  intros Hok Hop Hrun Hperm ends. subst ends.
+  pose proof (latest_target_length f (draws (bb t))) as Hlen.
+  destruct (latest_target f (draws (bb t))) as [|x [|y l]] eqn:Hlt; [| |cbn in Hlen; lia].
+  - cbn [map app]. exists op. auto.
+  - cbn [map app rev]. cbn [app] in Hperm.
+    assert (Hin : In x op).
+    { eapply Permutation_in; [apply Permutation_sym; exact Hperm|]. apply in_or_app. right. left. reflexivity. }
+    destruct (remove1_In _ _ Hin) as (op1 & Hrem & Hp1).
+    assert (Hone : open_ok (bound_of c) op [EvEnd x tn] = true) by (cbn [open_ok]; rewrite Hrem; reflexivity).
+    destruct (open_ok_app (bound_of c) (rev (btrace t)) [] op [EvEnd x tn] Hok Hop Hone) as [H1 H2].
+    exists op1. split; [exact H1|]. split; [rewrite H2; cbn [run_open]; rewrite Hrem; reflexivity|].
+    apply Permutation_cons_inv with (a := x).
+    eapply Permutation_trans; [apply Permutation_sym; exact Hp1|].
+    eapply Permutation_trans; [exact Hperm|]. apply Permutation_sym. apply Permutation_middle.
+Qed.
+
+Lemma btinv2_step c interval tg t l tn t' :
+  BTInv2 c tg t -> btstep interval tg t l tn = Some t' -> BTInv2 c tg t'.
+Proof.
+  intros [Base Hok (op & Hop & Hperm)] H.
+  pose proof (btinv_step _ _ _ _ _ _ _ Base H) as Base'.
+  pose proof (bt_run _ _ _ Base) as Hrun. pose proof (bt_run _ _ _ Base') as Hrun'.
+  pose proof (binv_reachable _ _ _ _ Hrun) as B.
+  pose proof (running_nodup _ _ _ _ Hrun) as Hnd.
+  constructor; [exact Base'| |]; unfold btstep in H; destruct l as [|f].
+  - (* timer: no event *)
+    destruct (bstep (bb t) BTimer) as [b1|]; [|discriminate]. inversion H; subst. exact Hok.
+  - destruct (bstep (bb t) (BDraw f)) as [b1|] eqn:Hs; [|discriminate].
+    destruct (bstep_draw_core _ _ _ Hs) as (Hcore & _ & Hf).
+    destruct (NoDup_split f _ Hnd Hf) as (r1 & r2 & Hsplit & Hn1 & Hn2).
+    assert (Hperm' : Permutation op (flat_map (fun g => latest_target g (draws (bb t))) r1
+                  ++ latest_target f (draws (bb t))
+                  ++ flat_map (fun g => latest_target g (draws (bb t))) r2)).
+    { unfold in_flight in Hperm. rewrite Hsplit, flat_map_app in Hperm. exact Hperm. }
+    destruct (close_current c t f tn op r1 r2 Hok Hop Hsplit Hperm') as (op1 & Hok1 & Hop1 & Hp1).
+    destruct (plan (bb t)) as [|x rest] eqn:Hpl.
+    + destruct (bstep b1 _) as [b2|]; [|discriminate]. inversion H; subst. cbn [btrace]. exact Hok1.
+    + inversion H; subst t'. cbn [btrace rev]. 
+      assert (Hone : open_ok (bound_of c) op1 [EvBegin x tn] = true).
+      { cbn [open_ok]. rewrite andb_true_r. apply Nat.leb_le.
+        cbn [bb] in Hrun'. pose proof (in_flight_bound _ _ _ _ Hrun') as Hb.
+        unfold in_flight in Hb. rewrite Hcore, Hsplit, flat_map_app in Hb. cbn [flat_map] in Hb.
+        pose proof (bstep_draw_effect _ _ _ Hs) as Hd. rewrite Hpl in Hd. destruct Hd as [Hd _].
+        rewrite Hd in Hb. rewrite latest_target_cons_some in Hb.
+        rewrite (flat_map_ext_in (fun g => latest_target g ((f, Some x) :: draws (bb t)))
+                   (fun g => latest_target g (draws (bb t))) r1) in Hb
+          by (intros g Hg; apply latest_target_cons_other; intros ->; exact (Hn1 Hg)).
+        rewrite (flat_map_ext_in (fun g => latest_target g ((f, Some x) :: draws (bb t)))
+                   (fun g => latest_target g (draws (bb t))) r2) in Hb
+          by (intros g Hg; apply latest_target_cons_other; intros ->; exact (Hn2 Hg)).
+        rewrite !app_length in Hb. cbn [List.length] in Hb.
+        rewrite (Permutation_length Hp1), app_length. lia. }
+      apply (open_ok_app _ _ _ _ _ Hok1 Hop1 Hone).
+  - (* timer *)
+    destruct (bstep (bb t) BTimer) as [b1|] eqn:Hs; [|discriminate]. inversion H; subst t'. cbn [btrace bb].
+    exists op. split; [exact Hop|]. eapply Permutation_trans; [exact Hperm|].
+    unfold in_flight. rewrite (bstep_timer_draws _ _ Hs).
+    destruct (bstep_timer_running _ _ Hs) as [->| ->]; [apply Permutation_refl|].
+    rewrite flat_map_app. cbn [flat_map].
+    rewrite latest_target_fresh; [rewrite !app_nil_r; apply Permutation_refl|].
+    intros d Hd. pose proof (b_ids _ _ _ _ B d Hd). lia.
+  - destruct (bstep (bb t) (BDraw f)) as [b1|] eqn:Hs; [|discriminate].
+    destruct (bstep_draw_core _ _ _ Hs) as (Hcore & _ & Hf).
+    destruct (NoDup_split f _ Hnd Hf) as (r1 & r2 & Hsplit & Hn1 & Hn2).
+    assert (Hperm' : Permutation op (flat_map (fun g => latest_target g (draws (bb t))) r1
+                  ++ latest_target f (draws (bb t))
+                  ++ flat_map (fun g => latest_target g (draws (bb t))) r2)).
+    { unfold in_flight in Hperm. rewrite Hsplit, flat_map_app in Hperm. exact Hperm. }
+    destruct (close_current c t f tn op r1 r2 Hok Hop Hsplit Hperm') as (op1 & Hok1 & Hop1 & Hp1).
+    pose proof (bstep_draw_effect _ _ _ Hs) as Hd.
+    destruct (plan (bb t)) as [|x rest] eqn:Hpl.
+    + (* the plan is empty: the fiber yields *)
+      destruct Hd as [Hd _].
+      destruct (bstep b1 _) as [b2|] eqn:Hs2; [|discriminate]. inversion H; subst t'. cbn [btrace bb].
+      exists op1. split; [exact Hop1|]. eapply Permutation_trans; [exact Hp1|].
+      unfold in_flight. rewrite (bstep_complete_running _ _ _ _ Hs2), (bstep_complete_draws _ _ _ _ Hs2).
+      rewrite Hcore, Hsplit, (remove_split _ _ _ Hn1 Hn2), Hd, flat_map_app.
+      rewrite (flat_map_ext_in (fun g => latest_target g ((f, None) :: draws (bb t)))
+                 (fun g => latest_target g (draws (bb t))) r1)
+        by (intros g Hg; apply latest_target_cons_other; intros ->; exact (Hn1 Hg)).
+      rewrite (flat_map_ext_in (fun g => latest_target g ((f, None) :: draws (bb t)))
+                 (fun g => latest_target g (draws (bb t))) r2)
+        by (intros g Hg; apply latest_target_cons_other; intros ->; exact (Hn2 Hg)).
+      apply Permutation_refl.
+    + destruct Hd as [Hd _]. inversion H; subst t'. cbn [btrace bb rev].
+      exists (x :: op1). split.
+      * (* run_open over the appended begin *)
+        assert (Hgen : forall a op0 opa, run_open op0 a = Some opa ->
+                    run_open op0 (a ++ [EvBegin x tn]) = Some (x :: opa)).
+        { induction a as [|[y z|y z] a IHa]; intros op0 opa Ha; cbn [app run_open] in *.
+          - inversion Ha; subst. reflexivity.
+          - apply IHa. exact Ha.
+          - destruct (remove1 y op0); [apply IHa; exact Ha|discriminate]. }
+        apply Hgen. exact Hop1.
+      * unfold in_flight. rewrite Hcore, Hsplit, Hd, flat_map_app. cbn [flat_map].
+        rewrite latest_target_cons_some.
+        rewrite (flat_map_ext_in (fun g => latest_target g ((f, Some x) :: draws (bb t)))
+                   (fun g => latest_target g (draws (bb t))) r1)
+          by (intros g Hg; apply latest_target_cons_other; intros ->; exact (Hn1 Hg)).
+        rewrite (flat_map_ext_in (fun g => latest_target g ((f, Some x) :: draws (bb t)))
+                   (fun g => latest_target g (draws (bb t))) r2)
+          by (intros g Hg; apply latest_target_cons_other; intros ->; exact (Hn2 Hg)).
+        cbn [app]. eapply Permutation_trans; [apply perm_skip; exact Hp1|]. apply Permutation_middle.
+Qed.
+
+Lemma bexplore_final2 c interval tg fuel t o :
+  BTInv2 c tg t -> In o (bexplore fuel interval tg t) ->
+  exists t', BTInv2 c tg t' /\ bo_events o = rev (btrace t').
+Proof.
+  revert t; induction fuel as [|fuel IH]; intros t T Hin; cbn [bexplore] in Hin.
+  - destruct (returned (core (bb t))) as [r|]; [|destruct Hin].
+    destruct Hin as [<-|[]]. exists t. auto.
+  - destruct (returned (core (bb t))) as [r|].
+    + destruct Hin as [<-|[]]. exists t. auto.
+    + destruct (list_min (bevent_times t)) as [tn|]; [|destruct Hin].
+      apply in_flat_map in Hin. destruct Hin as (l & _ & Hin).
+      destruct (btstep interval tg t l tn) as [t1|] eqn:Hs; [|destruct Hin].
+      apply (IH t1); [eapply btinv2_step; eassumption|exact Hin].
+Qed.
+
+Theorem probe_accept_sound c interval tg o :
+  baccept_guided c interval tg o = true -> prop_trace c tg o = true.
+Proof.
+  intros H. unfold prop_trace. apply andb_true_iff. split.
+  - apply (probe_accept_schedule _ _ _ _ H).
+  - rewrite baccept_guided_eq in H. apply baccept_In in H.
+    destruct (bexplore_final2 c _ _ _ _ _ (btinv2_init c interval tg) H) as (t' & T & ->).
+    apply (bt2_ok _ _ _ T).
 Qed.
